@@ -35,7 +35,7 @@ ASSUMPTIONS = [
     "formats without {epoch} combined with keep-everything overwrite the single checkpoint each epoch (documented by a "
     "constructor warning), so the best-epoch clause is not evaluated for that combination",
 ]
-BUDGET_S = {"quick": 300, "thorough": 2700}
+BUDGET_S = {"quick": 900, "thorough": 3000}
 
 FORMATS = {
     "epoch": ("model_{epoch:03d}.pt", "optim_{epoch:03d}.pt"),
@@ -153,12 +153,13 @@ def window_of(events):
     return "other"
 
 
-def recover_and_finish(ctx, c, metrics, root, full, case, second=None, window="other"):
+def recover_and_finish(ctx, c, metrics, root, full, case, second=None, window="other", sigx=None):
     """After a crash: restart on the surviving files, check what is loadable, finish training.
     ``second`` = (update offset, event index) of a second crash during the continuation (thorough)."""
     cfg = to_cfg(c)
     bit = c["best_is_train"]
     sig0 = {"fmt": c["fmt"], "keep": c["keep_last_and_best_only"], "crash": True, "window": window}
+    sig0.update(sigx or {})
     text = T.csv_text(root)
     # surviving csv: absent, created-but-empty (no rows yet), or exactly the text after some completed update
     if text not in [None, ""] + full["csvs"]:
@@ -206,6 +207,7 @@ def recover_and_finish(ctx, c, metrics, root, full, case, second=None, window="o
         if "refused_at" in full and e == full["refused_at"]:
             break
         if second is not None and upd == second[0]:
+            had_ckpt = os.path.exists(ctrl.get_model_path_with_info(dict(ctrl.get_info(e - 1), epoch=e)))
             with CrashFS(root, kill_before=second[1]) as fs:
                 try:
                     do_update(ctrl, m, o, e, metrics[e - 1], bit)
@@ -219,7 +221,7 @@ def recover_and_finish(ctx, c, metrics, root, full, case, second=None, window="o
             if crashed:
                 ctx.transitions += 1
                 return recover_and_finish(ctx, c, metrics, root, full, dict(case, second=list(second)), None,
-                                          window_of(fs.events))
+                                          window_of(fs.events), {"ckpt_existed_before": had_ckpt})
             return None  # event index beyond this update: nothing to explore
         try:
             do_update(ctrl, m, o, e, metrics[e - 1], bit)
@@ -270,6 +272,8 @@ def explore_history(ctx, c, metrics, tier):
         for k in range(nev):
             restore(os.path.join(snapdir, f"before{u}"), root)
             ctrl, m, o = build(cfg, root)
+            had_ckpt = os.path.exists(ctrl.get_model_path_with_info(dict(ctrl.get_info(u - 1), epoch=u)))
+            sigx = {"ckpt_existed_before": had_ckpt}
             case = {"kind": "crash", "c": c, "metrics": list(metrics), "update": u, "event": k}
             with CrashFS(root, kill_before=k) as fs:
                 try:
@@ -286,7 +290,7 @@ def explore_history(ctx, c, metrics, tier):
             ctx.state([T.csv_text(root), T.listing(root)])
             win = window_of(fs.events)
             ctx.count("window:" + win)
-            ok = recover_and_finish(ctx, c, metrics, root, full, case, None, win)
+            ok = recover_and_finish(ctx, c, metrics, root, full, case, None, win, sigx)
             ctx.outcome([ok, fs.crashed_at[0], T.listing(root)])
             if ok and tier == "thorough":
                 # crash bound 2: second crash at every event of the first update of the continuation
@@ -300,7 +304,7 @@ def explore_history(ctx, c, metrics, tier):
                         except Crash:
                             pass
                     del ctrl, m, o
-                    r = recover_and_finish(ctx, c, metrics, root, full, case, second=(0, j), window=win)
+                    r = recover_and_finish(ctx, c, metrics, root, full, case, second=(0, j), window=win, sigx=sigx)
                     if r is None:
                         break
                     ctx.case(1, 1)
